@@ -113,6 +113,8 @@ def check(ctx, rep):
     rep.rule("R07d", "dot-files are never added to the listing by the UMN handler", floor=1)
     rep.rule("R07e", "entrycmp has no effects and reads only name/num", floor=1)
     rep.rule("R07g", "entries hidden by metadata stay hidden: MergeLinkFiles removes the walked entry for Type=X, never re-adds a block for a walked file, keeps its selector index intact", floor=1)
+    rep.rule("R07j", "a listing depends on this directory alone: building it writes no module- or class-level state (a verdict remembered for one "
+             "directory must not be replayed for another)", floor=1)
     rep.rule("R07i", "= R10c: the listing kept for later requests is the final one (hidden names removed, merged, sorted) - never an intermediate list", floor=2)
     rep.rule("R07h", "the real-file-system VFS lists names exactly as the OS returns them (file-system decoding only): the selector built from a listed name is the name on disk", floor=1)
     rep.rule("R07f", "a name is appended to the file list exactly when the filter accepts it, once", floor=1)
@@ -271,6 +273,19 @@ def check(ctx, rep):
 
         merge_obligations(ctx, rep, umn, rule_c="R07g", only_merge=True)
 
+    # ------------------------------------------------------------------ R07j
+    from ..effects import Effects as _Eff
+    from .c14 import shared_state_obligations
+
+    listing_funcs = set()
+    for C in family:
+        for c in prog.mro(C):
+            listing_funcs.update(m for m in c.methods.values() if m.name.startswith(("prep", "prepare", "getdirlist", "MergeLinkFiles", "processLinkFile",
+                                                                                     "getLinkItem", "mergeentries", "entrycmp")))
+    n_before = len(rep.obligations)
+    shared_state_obligations(ctx, rep, "R07j", _Eff(prog, ctx.resolver), listing_funcs, sequential=True)
+    if len(rep.obligations) == n_before:
+        rep.ok("R07j", f"no module- or class-level state is written while a listing is built [{len(listing_funcs)} functions]", "pygopherd/handlers/dir.py")
     # ------------------------------------------------------------------ R07i
     from .c10 import save_order_obligations
     save_order_obligations(ctx, rep, "R07i")
